@@ -336,12 +336,13 @@ func processFetchForMessage(deps ServerDeps, conn net.Conn, messageID, uid int64
 						if close != -1 {
 							rangeSpec := upper[after+1 : after+close]
 							var startPos, length int
-							if _, err := fmt.Sscanf(rangeSpec, "%d.%d", &startPos, &length); err == nil {
+							if _, err := fmt.Sscanf(rangeSpec, "%d.%d", &startPos, &length); err == nil && startPos >= 0 && length >= 0 {
 								partialStartPos = startPos
 								if startPos < len(payload) {
-									endPos := startPos + length
-									if endPos > len(payload) {
-										endPos = len(payload)
+									// compare against what is left instead of adding: startPos+length may not fit an int
+									endPos := len(payload)
+									if length < endPos-startPos {
+										endPos = startPos + length
 									}
 									payload = payload[startPos:endPos]
 								} else {
@@ -472,10 +473,15 @@ func processFetchForMessage(deps ServerDeps, conn net.Conn, messageID, uid int64
 			if startIdx != -1 && endIdx > startIdx {
 				partialSpec := itemsUpper[startIdx+1 : endIdx]
 				_, _ = fmt.Sscanf(partialSpec, "%d.%d", &partialStart, &partialLength)
+				if partialStart < 0 || partialLength < 0 {
+					// Not a valid partial range: ignore it rather than slicing out of bounds
+					partialStart, partialLength = 0, len(body)
+				}
 				if partialStart < len(body) {
-					endPos := partialStart + partialLength
-					if endPos > len(body) {
-						endPos = len(body)
+					// compare against what is left instead of adding: partialStart+partialLength may not fit an int
+					endPos := len(body)
+					if partialLength < endPos-partialStart {
+						endPos = partialStart + partialLength
 					}
 					body = body[partialStart:endPos]
 				} else {
